@@ -2,6 +2,12 @@
 // boundary (oracle items 3-5); rectangle, cross, regular_polygon against the documented vertices.
 #pragma once
 
+// magnitude family: every length (centre, radii, polygon, tolerance) of a primitive case is multiplied
+// by g_mag; set by the *_magnitude sub-searches around a call of the ordinary runner
+static double g_mag = 1;
+static std::string g_mag_s, g_sub;
+static std::string sub_or(const char* dflt) { return g_sub.empty() ? std::string(dflt) : g_sub; }
+static std::string tol_label(int toli) { return g_mag == 1 ? TOL_S[toli] : TOL_S[toli] + "*" + g_mag_s; }
 static std::string pj(const Vec2& v) { return "[" + jnum(v.x) + "," + jnum(v.y) + "]"; }
 
 // Closed polygon V against a closed exact outline.  The property fixes neither the vertex the array
@@ -48,7 +54,7 @@ static SecOut check_closed(const CaseCtx& cx, const std::string& sub, const JFie
     P2 v0 = toP(V[0]);
     LD closest = 1e300L;
     for (int o = 0; o < (either_orientation ? 2 : 1); o++) {
-        LD eps = 1e-9L * base[o].scale(), tp = 0, P = base[o].total();
+        LD eps = 1e-9L * base[o].scale(cx.scale_floor), tp = 0, P = base[o].total();
         for (int it = 0; it < 24 && tp < P; it++) {
             LD t, dm;
             bool f = base[o].find_from(v0, tp, eps, t, dm);
@@ -127,15 +133,18 @@ static void ellipse_model(const EllCase& e, P2 c, bool as_full, Exact& ex) {
         ex.pieces.push_back(line(pt(e.rx, e.ry, e.a1), c, "side"));
     }
 }
-static void run_ellipse(int64_t idx, int toli, const EllCase& e, bool verbose) {
+static void run_ellipse(int64_t idx, int toli, const EllCase& e0, bool verbose) {
     CaseCtx cx;
-    cx.tol = TOLS[toli];
-    cx.tol_s = TOL_S[toli];
+    cx.tol = TOLS[toli] * g_mag;
+    cx.tol_s = tol_label(toli);
+    cx.scale_floor = g_mag < 1 ? g_mag : 1;
     cx.verbose = verbose;
-    const Vec2 center = {0.5, -0.25};
+    EllCase e = e0;
+    e.rx *= g_mag; e.ry *= g_mag; e.irx *= g_mag; e.iry *= g_mag;
+    const Vec2 center = {0.5 * g_mag, -0.25 * g_mag};
     cx.case_json = jobj({{"primitive", jstr("ellipse")}, {"shape", jstr(e.shape)}, {"center", pj(center)}, {"radius_x", jnum(e.rx)}, {"radius_y", jnum(e.ry)},
                          {"inner_radius_x", jnum(e.irx)}, {"inner_radius_y", jnum(e.iry)}, {"initial_angle", jnum(e.a0)}, {"final_angle", jnum(e.a1)}, {"tolerance", jnum(cx.tol)}});
-    cx.replay = fmt("sub=ellipse idx=%lld", (long long)idx);
+    cx.replay = fmt("sub=%s idx=%lld", sub_or("ellipse").c_str(), (long long)idx);
     Polygon p = ellipse(center, e.rx, e.ry, e.irx, e.iry, e.a0, e.a1, cx.tol, 0);
     double span = fabs(e.a1 - e.a0);
     bool full = e.a0 == e.a1;
@@ -181,13 +190,15 @@ static void run_ellipse(int64_t idx, int toli, const EllCase& e, bool verbose) {
 // ---------------------------------------------------------------- racetrack
 static void run_racetrack(int64_t idx, int toli, double L, double r, double ri, bool vertical, bool verbose) {
     CaseCtx cx;
-    cx.tol = TOLS[toli];
-    cx.tol_s = TOL_S[toli];
+    cx.tol = TOLS[toli] * g_mag;
+    cx.tol_s = tol_label(toli);
+    cx.scale_floor = g_mag < 1 ? g_mag : 1;
     cx.verbose = verbose;
-    const Vec2 center = {-0.5, 0.75};
+    L *= g_mag; r *= g_mag; ri *= g_mag;
+    const Vec2 center = {-0.5 * g_mag, 0.75 * g_mag};
     cx.case_json = jobj({{"primitive", jstr("racetrack")}, {"center", pj(center)}, {"straight_length", jnum(L)}, {"radius", jnum(r)}, {"inner_radius", jnum(ri)},
                          {"vertical", jbool(vertical)}, {"tolerance", jnum(cx.tol)}});
-    cx.replay = fmt("sub=racetrack idx=%lld", (long long)idx);
+    cx.replay = fmt("sub=%s idx=%lld", sub_or("racetrack").c_str(), (long long)idx);
     Polygon p = racetrack(center, L, r, ri, vertical, cx.tol, 0);
     // analytic boundary: two half circles of the given radius around c1/c2 = center +- direction*L/2,
     // joined by straight sides; with an inner radius the inner boundary is traversed backwards and
@@ -259,10 +270,13 @@ static void init_fillet_polys() {
 }
 static void run_fillet(int64_t idx, int toli, const FilletPoly& fp, int radset, bool verbose) {
     CaseCtx cx;
-    cx.tol = TOLS[toli];
-    cx.tol_s = TOL_S[toli];
+    cx.tol = TOLS[toli] * g_mag;
+    cx.tol_s = tol_label(toli);
+    cx.scale_floor = g_mag < 1 ? g_mag : 1;
     cx.verbose = verbose;
-    const std::vector<Vec2>& Lp = fp.pts;
+    std::vector<Vec2> Lp = fp.pts;
+    for (auto& v : Lp) v = v * g_mag;
+    const LD MAG = g_mag;
     int nc = (int)Lp.size();
     static const char* RN[7] = {"0.25", "0.75", "1", "5(too large)", "0.25,1", "0.25,3,0.75", "per-vertex 0.4+0.6j"};
     std::vector<double> radii;
@@ -276,10 +290,11 @@ static void run_fillet(int64_t idx, int toli, const FilletPoly& fp, int radset, 
         default: for (int j = 0; j < nc; j++) radii.push_back(0.4 + 0.6 * j); break;
     }
     const char* rname = RN[radset];
+    for (auto& r : radii) r *= g_mag;
     std::vector<std::string> vj;
     for (auto& v : Lp) vj.push_back(pj(v));
     cx.case_json = jobj({{"primitive", jstr("fillet")}, {"shape", jstr(fp.name)}, {"polygon", jarr(vj)}, {"radii", jnums(radii)}, {"tolerance", jnum(cx.tol)}});
-    cx.replay = fmt("sub=fillet idx=%lld", (long long)idx);
+    cx.replay = fmt("sub=%s idx=%lld", sub_or("fillet").c_str(), (long long)idx);
     Polygon p = {};
     for (auto& v : Lp) p.point_array.append(v);
     Array<double> ra = {};
@@ -351,7 +366,7 @@ static void run_fillet(int64_t idx, int toli, const FilletPoly& fp, int radset, 
             LD l = dist(fv, p1);
             if (fabsl(cross(v0, v1)) <= 1e-12L && dot(v0, v1) > 0) {
                 // straight-through vertex: documented to stay as it is
-                if (cnt[k] != 1 || l > 1e-12L) { viol("structure", {{"corner", jint(k)}}, fmt("collinear input vertex %d %s is represented by %d output vertices starting at %s", k, vstr(Lp[k]).c_str(), cnt[k], vstr(W[first[k]]).c_str())); bad = true; break; }
+                if (cnt[k] != 1 || l > 1e-12L * MAG) { viol("structure", {{"corner", jint(k)}}, fmt("collinear input vertex %d %s is represented by %d output vertices starting at %s", k, vstr(Lp[k]).c_str(), cnt[k], vstr(W[first[k]]).c_str())); bad = true; break; }
                 arc_start[k] = arc_end[k] = p1;
                 continue;
             }
@@ -362,12 +377,12 @@ static void run_fillet(int64_t idx, int toli, const FilletPoly& fp, int radset, 
             LD cap = (LD)0.5 * std::min(len0, len1) / tant;
             LD lo = std::min(r, cap);       // documented effective radius
             if (r > cap) clamped_any = true;
-            LD reff = (cnt[k] == 1 && l <= 1e-12L) ? 0 : l / tant;
-            if (reff > lo * (1 + 1e-9L) + 1e-12L)
+            LD reff = (cnt[k] == 1 && l <= 1e-12L * MAG) ? 0 : l / tant;
+            if (reff > lo * (1 + 1e-9L) + 1e-12L * MAG)
                 { viol("fillet-radius", {{"corner", jint(k)}, {"kind", jstr("too-large")}}, fmt("corner %d %s: tangent point %s gives radius %.12Lg, larger than min(requested %.6Lg, half of the shortest adjacent edge %.6Lg) = %.12Lg", k, vstr(Lp[k]).c_str(), vstr(W[first[k]]).c_str(), reff, r, cap, lo)); bad = true; break; }
-            if (reff < lo - (cx.tol / tant) * (1 + 1e-9L) - 1e-12L)
+            if (reff < lo - (cx.tol / tant) * (1 + 1e-9L) - 1e-12L * MAG)
                 { viol("fillet-radius", {{"corner", jint(k)}, {"kind", jstr("too-small")}}, fmt("corner %d %s: radius %.12Lg used, documented min(requested %.6Lg, half of the shortest adjacent edge %.6Lg) = %.12Lg (slack: tolerance)", k, vstr(Lp[k]).c_str(), reff, r, cap, lo)); bad = true; break; }
-            if (reff > 0 && r <= cap - cx.tol && fabsl(reff - r) > 1e-9L)
+            if (reff > 0 && r <= cap - cx.tol && fabsl(reff - r) > 1e-9L * MAG)
                 { viol("fillet-radius", {{"corner", jint(k)}, {"kind", jstr("not-requested")}}, fmt("corner %d: radius %.12Lg used although the requested %.6Lg fits (half of the shortest adjacent edge is %.6Lg)", k, reff, r, cap)); bad = true; break; }
             auto mk = [&](LD rad, const char* what) {
                 P2 bis = v1 - v0;
@@ -599,5 +614,47 @@ static void register_primitives(bool thorough) {
         s.chunk = 16;
         s.run = [](int64_t idx, bool v) { run_exact(idx, v); };
         SUBS.push_back(s);
+    }
+    // magnitude family: the same primitive cases with every length multiplied by 1e-9 and by 1e+9
+    {
+        static const double MAGS[2] = {1e-9, 1e9};
+        static const char* MAGN[2] = {"1e-9", "1e9"};
+        int64_t ne = (int64_t)EC.size(), np = (int64_t)FPOLY.size(), NT = (int64_t)TOLS.size();
+        auto with_mag = [](int m, const std::string& sub, const std::function<void()>& f) {
+            g_mag = MAGS[m]; g_mag_s = MAGN[m]; g_sub = sub;
+            f();
+            g_mag = 1; g_mag_s.clear(); g_sub.clear();
+        };
+        Sub s;
+        s.name = "ellipse_magnitude";
+        s.desc = "magnitude family: every ellipse() case (circle, ellipses, rings; full, slices, ring slices) with centre, radii and tolerance x 1e-9 and x 1e+9";
+        s.n = 2 * ne * NT;
+        s.chunk = 16;
+        s.run = [=](int64_t idx, bool v) { int64_t k = idx % (ne * NT); with_mag((int)(idx / (ne * NT)), "ellipse_magnitude", [&] { run_ellipse(idx, (int)(k / ne), EC[k % ne], v); }); };
+        SUBS.push_back(s);
+        Sub r;
+        r.name = "racetrack_magnitude";
+        r.desc = "magnitude family: every racetrack() case with all lengths x 1e-9 and x 1e+9";
+        r.n = 2 * 16 * NT;
+        r.chunk = 8;
+        r.run = [=](int64_t idx, bool v) {
+            int64_t q = idx % (16 * NT);
+            int k = (int)(q % 16);
+            double rr = (k & 2) ? 3 : 1;
+            with_mag((int)(idx / (16 * NT)), "racetrack_magnitude", [&] { run_racetrack(idx, (int)(q / 16), (k & 1) ? 0.5 : 2, rr, (k & 4) ? rr / 2 : 0, (k & 8) != 0, v); });
+        };
+        SUBS.push_back(r);
+        Sub f;
+        f.name = "fillet_magnitude";
+        f.desc = "magnitude family: every 8th fillet vertex array x 7 radius sets x tolerance with polygon, radii and tolerance x 1e-9 and x 1e+9";
+        int64_t np8 = (np + 7) / 8;
+        f.n = 2 * NT * 7 * np8;
+        f.chunk = 40;
+        f.run = [=](int64_t idx, bool v) {
+            int64_t q = idx % (NT * 7 * np8);
+            int64_t k = q % (7 * np8);
+            with_mag((int)(idx / (NT * 7 * np8)), "fillet_magnitude", [&] { run_fillet(idx, (int)(q / (7 * np8)), FPOLY[(k / 7) * 8], (int)(k % 7), v); });
+        };
+        SUBS.push_back(f);
     }
 }
